@@ -274,7 +274,7 @@ PROPS = {
         "harness": "c19", "driver": "c19", "shards": 4, "harness_shards": 16,
         "classify": c19_class,
         "nontrivial": lambda cls: cls["scenario"] == "broadcast-tags" or cls.get("script_len", 0) >= 1,
-        "rule": "cases = every per-attempt behaviour script of length <= min(max+1,3) (quick; at most one silent attempt) / <= max+2 (thorough) over {refused, accepted-then-closed, closed-while-idle, silent, malformed reply, application error, success} for max_attempts 1..3, blocking and async fleet, each followed by len+2 calls during which the node turns healthy; the fleet.attempt probe switches the scripted node synchronously before every attempt; plus tag-subset broadcasts over up to 3 nodes x 3 tags; distinct = distinct scenario; non-trivial = non-empty script or a tag broadcast Scripted application-error replies carry varying codes (4096, Timeout, ResourceExhausted, InternalError, MethodNotFound); broadcast tag lists sometimes name every tag twice. Behaviour J (success frame with cut-short JSON: a reply, not retried); zero retry delay on even script lengths; slow=<i>: a broadcast node that answers after default_timeout but within its own timeout must still be reported; a result carrying both a value and an error is a violation (driver-level clause). mon=3: the async scripts of length <= 2 are run again while three monitor tasks poll is_connected / connected_nodes from other runtime threads (observers only; same model and oracle). duo=1: two concurrent callers (call_json / call_message) share one node's cached connection; caller A's request is read and never answered, caller B's request, sent half a timeout later, is answered as soon as A has given its first attempt up, well inside B's deadline (ready=1 records that the node wrote the reply in time, otherwise the case is not judged); driver-level clauses: B reports that reply after exactly one attempt and the node sees B's request exactly once, A stays within max_attempts and reports an error, one of two calls afterwards succeeds. cut=<spec> (async, json/msg, current-thread and multi-thread runtime, max_attempts 1 and 3): before the scenario with the empty script (node healthy throughout: first call, two follow-up calls, one untagged broadcast) one call on the cold node is abandoned by its caller, i.e. its future is dropped when it is pending for the k-th time (p1 = inside the TCP connect, p2.. = connected / waiting for the reply, p3-p4 = usually finished) or after a number of microseconds (t<us>); busy=1: the node is slow to accept (accept queue full) until the abandoned call has been dropped, so the connect pends for as long as the caller waits; ab=S: the node does not answer the abandoned request; the abandoned call's attempts are not counted; the same model and oracle judge the calls (a call that has not returned after a 5 s watchdog is reported as hung = an error result and ends the case), driver-level clauses: no call hangs, the broadcast returns exactly one successful result for the node.",
+        "rule": "cases = every per-attempt behaviour script of length <= min(max+1,3) (quick; at most one silent attempt) / <= max+2 (thorough) over {refused, accepted-then-closed, closed-while-idle, silent, malformed reply, application error, success} for max_attempts 1..3, blocking and async fleet, each followed by len+2 calls during which the node turns healthy; the fleet.attempt probe switches the scripted node synchronously before every attempt; plus tag-subset broadcasts over up to 3 nodes x 3 tags; distinct = distinct scenario; non-trivial = non-empty script or a tag broadcast Scripted application-error replies carry varying codes (4096, Timeout, ResourceExhausted, InternalError, MethodNotFound); broadcast tag lists sometimes name every tag twice. Behaviour J (success frame with cut-short JSON: a reply, not retried); zero retry delay on even script lengths; slow=<i>: a broadcast node that answers after default_timeout but within its own timeout must still be reported; a result carrying both a value and an error is a violation (driver-level clause). mon=3: the async scripts of length <= 2 are run again while three monitor tasks poll is_connected / connected_nodes from other runtime threads (observers only; same model and oracle). duo=1: two concurrent callers (call_json / call_message) share one node's cached connection; caller A's request is read and never answered, caller B's request, sent half a timeout later, is answered as soon as A has given its first attempt up, well inside B's deadline (ready=1 records that the node wrote the reply in time, otherwise the case is not judged); driver-level clauses: B reports that reply after exactly one attempt and the node sees B's request exactly once, A stays within max_attempts and reports an error, one of two calls afterwards succeeds. cut=<spec> (async, json/msg, current-thread and multi-thread runtime, max_attempts 1 and 3): before the scenario with the empty script (node healthy throughout: first call, two follow-up calls, one untagged broadcast) one call on the cold node is abandoned by its caller, i.e. its future is dropped when it is pending for the k-th time (p1 = inside the TCP connect, p2.. = connected / waiting for the reply, p3-p4 = usually finished) or after a number of microseconds (t<us>); busy=1: the node is slow to accept (accept queue full) until the abandoned call has been dropped, so the connect pends for as long as the caller waits; ab=S: the node does not answer the abandoned request; the abandoned call's attempts are not counted; the same model and oracle judge the calls (a call that has not returned after a 5 s watchdog is reported as hung = an error result and ends the case), driver-level clauses: no call hangs, the broadcast returns exactly one successful result for the node. hc=1 (blocking and async, json/msg, max_attempts 1..3, warm=0/1: connection opened by the call itself or by an earlier call): caller B's request is in flight on the node's cached connection while a fleet health check of an endpoint the node does not have fails (MethodNotFound); the node keeps reading the connection and answers B only after the health check has returned, well inside B's deadline (ready=1, otherwise not judged); driver-level clauses: B reports that reply after exactly one attempt and the node sees B's request exactly once, one of two calls afterwards succeeds. tags=.. slow=<i> satt=<n> sdelay=<ms> (blocking and async): a broadcast in which node i stays silent on each of its n attempts (node timeout 150 ms) with a retry delay of 350-700 ms between them, so that its error entry is due long after the answering nodes' entries; judged like every tag broadcast (exactly the addressed nodes, one entry each, the silent node's entry an error; the silent node sees between 1 and n requests, every other addressed node exactly one). tog=<rounds> tx=<k> tf=<m> tb=<j> (async, multi-thread runtime): j tasks make 4000 broadcasts each for tag a while k tasks keep re-registering the nodes x0.. (remove_node + add_node of the same name), alternating tags [a] at a bound port that refuses connections and tags [b] at the healthy server B, beside m permanent nodes with tag a on server A; driver-level clauses: server B never reads a request of these broadcasts (hitb=0; the method name is the case's own) and every returned map has an entry for every permanent node and no foreign key (bad=0).",
         "timeout_s": {"quick": 900, "thorough": 3400},
     },
     "C17": {
@@ -323,7 +323,7 @@ PROPS = {
         "harness": "c04", "driver": "c04", "shards": 2, "harness_shards": 8,
         "classify": c04_class,
         "nontrivial": lambda cls: cls["callers"] != "1" and (cls["reordered"] == "True" or cls["features"] != "none"),
-        "rule": "cases = for each client (blocking, async, WebSocket): every permutation of the reply order for n<=4 (quick) / n<=6 (thorough) concurrent callers on clones of one client, each once plain and once with injected unknown-id, duplicate and (WebSocket) notify frames (reusing in-flight and free ids); random orders with unanswered callers for n<=16 / n<=64; batch_json of 1..40 requests answered in a shuffled order; 200 / 2000 model-sampled interleavings of register/write/receive-match/deliver/timeout/cancel for 2-4 callers forced by parking threads/tasks at the verif-hooks probe points; plus, AsyncClient only, 150 / 1500 cases of forward_message with (a) an in-flight id, (b) a free id, (c) the id the counter reaches next, (d) a notify message, (e) the id of an in-flight forward, and 3 directed + 150 / 1500 generated id-reuse cases (a forward or counter call registering the id of a call that is finished or matched-but-undelivered, the first call then timing out or being cancelled; includes the replay of the defect repaired in 76754fa); the scripted server never answers a request whose id currently belongs to another call; observation = caller -> (reply tag | timeout | cancel | refused | none | io error), subscriber tags, sorted ids of the counter-issued requests; distinct = distinct case; non-trivial = >1 caller and (reordered replies or an injected/timeout/cancel/forward step) Frames nobody is waiting for (unknown id, second answer, answer after timeout/cancel) carry error codes 0/7/9/4096; WebSocket cases also run without a notification subscriber (sub=0, model_C04_nosub); batches of 1..40 and 63..200 requests; harness-only burner steps Z/z (a call whose body fails to serialize) with ids compared by rank. stall=<i>:<off>:<ms> (par cases on the two raw-TCP clients, 8 async + 4 blocking quick / 24 + 12 thorough): the i-th frame of the script (never the last) reaches the client in two pieces, <off> bytes (inside the length prefix, the header, right after it, inside the query or the body), then 0.7..1.4 s of silence, then the rest, while the other calls are in flight. mode=spin (blocking client, 4 cases quick / 12 thorough): 8 threads on clones of the one client make 200 rounds of calls, all 8 released at the same instant from a spin barrier in every round (a sleeping barrier first, so that every thread arrives freshly woken), the server answering each round in a shuffled order: 1600 callers per case, each must get its own response and the 1600 ids must be distinct.",
+        "rule": "cases = for each client (blocking, async, WebSocket): every permutation of the reply order for n<=4 (quick) / n<=6 (thorough) concurrent callers on clones of one client, each once plain and once with injected unknown-id, duplicate and (WebSocket) notify frames (reusing in-flight and free ids); random orders with unanswered callers for n<=16 / n<=64; batch_json of 1..40 requests answered in a shuffled order; 200 / 2000 model-sampled interleavings of register/write/receive-match/deliver/timeout/cancel for 2-4 callers forced by parking threads/tasks at the verif-hooks probe points; plus, AsyncClient only, 150 / 1500 cases of forward_message with (a) an in-flight id, (b) a free id, (c) the id the counter reaches next, (d) a notify message, (e) the id of an in-flight forward, and 3 directed + 150 / 1500 generated id-reuse cases (a forward or counter call registering the id of a call that is finished or matched-but-undelivered, the first call then timing out or being cancelled; includes the replay of the defect repaired in 76754fa); the scripted server never answers a request whose id currently belongs to another call; observation = caller -> (reply tag | timeout | cancel | refused | none | io error), subscriber tags, sorted ids of the counter-issued requests; distinct = distinct case; non-trivial = >1 caller and (reordered replies or an injected/timeout/cancel/forward step) Frames nobody is waiting for (unknown id, second answer, answer after timeout/cancel) carry error codes 0/7/9/4096; WebSocket cases also run without a notification subscriber (sub=0, model_C04_nosub); batches of 1..40 and 63..200 requests; harness-only burner steps Z/z (a call whose body fails to serialize) with ids compared by rank. stall=<i>:<off>:<ms> (par cases on the two raw-TCP clients, 8 async + 4 blocking quick / 24 + 12 thorough): the i-th frame of the script (never the last) reaches the client in two pieces, <off> bytes (inside the length prefix, the header, right after it, inside the query or the body), then 0.7..1.4 s of silence, then the rest, while the other calls are in flight. mode=spin (blocking client, 4 cases quick / 12 thorough): 8 threads on clones of the one client make 200 rounds of calls, all 8 released at the same instant from a spin barrier in every round (a sleeping barrier first, so that every thread arrives freshly woken), the server answering each round in a shuffled order: 1600 callers per case, each must get its own response and the 1600 ids must be distinct. Large batches (blocking client, 8 cases quick / 24 thorough): batch_json of 512 requests (at most 64 workers, each returning to the shared queue several times), half answered in any order the window allows, half group by group in a shuffled order; burst=1 (harness-only): the server writes the scripted frames in as few writes as possible (collected while the requests they answer have been read); rep=50 (harness-only, hex): the case is run up to 80 times on fresh connections and one genuine observation is reported (the first run in which some result is not the positional one, else the last run), judged like any batch case: the result at position i is the response to request i. sub=d (WebSocket, 18 par cases for n<=3 callers): subscribe_notifies(), then the receiver is dropped without unsubscribe_notifies(); the first server-pushed notify after that reuses the id of a call in flight (right after the requests, or before the j-th reply for a caller not answered yet), more notifies follow; judged by model_C04_nosub / ok_C04_nosub like sub=0 (no subscriber: nothing reaches one, every call gets its own response). Long stall (AsyncClient, 2 par cases): stall=<i>:<off>:8fc, a response frame cut inside the header (offset 24) or at the start of the body (offset 50) with 2.3 s of silence in between while 3-4 calls are in flight.",
         "timeout_s": {"quick": 900, "thorough": 3400},
     },
     "C03": {
@@ -335,7 +335,7 @@ PROPS = {
     "C15": {
         "harness": "c15", "driver": "c15", "shards": 4, "harness_shards": 4,
         "classify": c15_class, "nontrivial": lambda cls: cls["handshake"] == "ok",
-        "rule": "cases = {serve_listener, serve_listener_with_graceful_drain, SharedWebSocketServer::accept(+_with_handshake)+serve_connection(+_with_cancel/_with_handshake), hand-rolled 101 + adopt_upgraded} x exit cause {clean close, socket loss, text frame, oversized frame, non-REPE binary frame, inline handler panic, embedder/shutdown token cancel, drain-deadline / task abort} x phase {idle, inline handler blocked, off-reader handler parked polling is_cancelled, outbound queue blocked on a slow peer, inside a blocking connect hook} with random hook configurations (counting / notifying / sleeping / alias-attaching hooks before and after with_peer_registry, handshake-aware hooks, 1..4 disconnect hooks around the registry's), plus a panicking connect hook at each position class and failed handshakes (garbage, wrong path, HTTP without upgrade); 1..4 (quick) / 1..32 (thorough) concurrent connections; per connection: callbacks ordered by a global sequence counter with registry.get/get_by sampled inside, registry after, frames seen by a raw tungstenite peer up to the first response, cancellation seen by the parked handler; plus staggered cases for every serving path: 2..4 connections under one server / shutdown trigger, connection 0 ended alone (clean close / socket loss / inline handler panic / protocol violation) while the others are idle or have a parked off-reader handler; after its disconnect hooks and a 300 ms settle each survivor must show 0 disconnect callbacks, presence in the registry with all its aliases, no cancellation seen, an answered fresh request, an un-cancelled embedder ShutdownToken, and a newly opened connection must be served; then the survivors are ended and judged by the usual clauses; distinct = distinct case; non-trivial = handshake succeeded two=1 cases: two servers built alike share the one peer registry, odd-numbered connections go to the second. early=1: the shared token is cancelled before the connection is accepted (hooks still pair up); shk=1: every alias action also re-points a key shared by all connections at the current peer (a perturbation; not counted among the peer's own keys). oq=1..3 stall=1 (queue phase, token causes): the outbound queue holds 1..3 messages and the flooding handler keeps it full, so the reader is parked handing over the response when the cause is raised; the peer keeps not reading for 4 s; the disconnect hooks must have run within 3 s (driver: note=).",
+        "rule": "cases = {serve_listener, serve_listener_with_graceful_drain, SharedWebSocketServer::accept(+_with_handshake)+serve_connection(+_with_cancel/_with_handshake), hand-rolled 101 + adopt_upgraded} x exit cause {clean close, socket loss, text frame, oversized frame, non-REPE binary frame, inline handler panic, embedder/shutdown token cancel, drain-deadline / task abort} x phase {idle, inline handler blocked, off-reader handler parked polling is_cancelled, outbound queue blocked on a slow peer, inside a blocking connect hook} with random hook configurations (counting / notifying / sleeping / alias-attaching hooks before and after with_peer_registry, handshake-aware hooks, 1..4 disconnect hooks around the registry's), plus a panicking connect hook at each position class and failed handshakes (garbage, wrong path, HTTP without upgrade); 1..4 (quick) / 1..32 (thorough) concurrent connections; per connection: callbacks ordered by a global sequence counter with registry.get/get_by sampled inside, registry after, frames seen by a raw tungstenite peer up to the first response, cancellation seen by the parked handler; plus staggered cases for every serving path: 2..4 connections under one server / shutdown trigger, connection 0 ended alone (clean close / socket loss / inline handler panic / protocol violation) while the others are idle or have a parked off-reader handler; after its disconnect hooks and a 300 ms settle each survivor must show 0 disconnect callbacks, presence in the registry with all its aliases, no cancellation seen, an answered fresh request, an un-cancelled embedder ShutdownToken, and a newly opened connection must be served; then the survivors are ended and judged by the usual clauses; distinct = distinct case; non-trivial = handshake succeeded two=1 cases: two servers built alike share the one peer registry, odd-numbered connections go to the second. early=1: the shared token is cancelled before the connection is accepted (hooks still pair up); shk=1: every alias action also re-points a key shared by all connections at the current peer (a perturbation; not counted among the peer's own keys). oq=1..3 stall=1 (queue phase, token causes): the outbound queue holds 1..3 messages and the flooding handler keeps it full, so the reader is parked handing over the response when the cause is raised; the peer keeps not reading for 4 s; the disconnect hooks must have run within 3 s (driver: note=). burst=1 (modes s / a): 16 connections are accepted and upgraded first and served at the same instant, then 30 further waves of 16 on a second server built alike; no two live connections may carry the same peer id (driver: note=).",
         "timeout_s": {"quick": 900, "thorough": 3400},
     },
     "C16": {
@@ -355,7 +355,7 @@ PROPS = {
     "C06": {
         "harness": "c06", "driver": "c06", "shards": 2, "harness_shards": 16, "classify": c06_class,
         "nontrivial": lambda cls: cls["fault"] != "none" or cls["timeout"] == "True" or cls["cancel"] == "True",
-        "rule": "for each client (blocking, async, WebSocket): faults injected by a raw scripted peer after k of n requests were read — clean close, RST (SO_LINGER 0), bad magic, length mismatch, query_length=2^64-21/body_length=100, body_length=2^62, header truncated at 20 and 47 bytes, body truncated at 5 offsets, truncated then RST; on WebSocket also close frame, text frame, reserved bits, masked server frame, unknown opcode — with n = 0..3 (quick) / 0..16 (thorough) calls in flight, with and without per-call timeouts, then two later calls; the same with the reader parked at fail.after_shutdown (subscriber state, a later call, a cancel, then the drain); all lives of 2 / 3 calls over {answered, expired, expiry forced before removal / after take / before lookup via probes, cancelled, cancel forced after take / before lookup, pending}, sequential and overlapped, with late responses, an unknown-id response and forward_message residue probes, then a fresh call that must still work; the stalled-writer scenario (8 MiB request to a peer with 4 KiB SO_RCVBUF that does not read) on all three clients; 150 / 1500 random valid scenarios; 5 s watchdog per wait; distinct = distinct case line; non-trivial = a fault, timeout or cancel occurred XZ: a 1 ns per-call timeout. ham=1 (async client): call 0 stays in flight while 12 / 40 further calls expire or are cancelled and two tasks keep the pending-map lock busy (forwards refused as duplicates of call 0, never reaching the wire); every finished call is then probed for residue. q=1 (harness-only switch, all three clients): in a stalled-writer scenario W:b;F:k;S:c the call c is started before the fault is injected - it has passed its before_write probe and waits for the writer lock held by the stalled call b when the connection fails (faults that leave the connection open with the peer still not reading, and a close); in flight or later, the property demands an error of it within the watchdog, so the model's verdict is unchanged.",
+        "rule": "for each client (blocking, async, WebSocket): faults injected by a raw scripted peer after k of n requests were read — clean close, RST (SO_LINGER 0), bad magic, length mismatch, query_length=2^64-21/body_length=100, body_length=2^62, header truncated at 20 and 47 bytes, body truncated at 5 offsets, truncated then RST; on WebSocket also close frame, text frame, reserved bits, masked server frame, unknown opcode — with n = 0..3 (quick) / 0..16 (thorough) calls in flight, with and without per-call timeouts, then two later calls; the same with the reader parked at fail.after_shutdown (subscriber state, a later call, a cancel, then the drain); all lives of 2 / 3 calls over {answered, expired, expiry forced before removal / after take / before lookup via probes, cancelled, cancel forced after take / before lookup, pending}, sequential and overlapped, with late responses, an unknown-id response and forward_message residue probes, then a fresh call that must still work; the stalled-writer scenario (8 MiB request to a peer with 4 KiB SO_RCVBUF that does not read) on all three clients; 150 / 1500 random valid scenarios; 5 s watchdog per wait; distinct = distinct case line; non-trivial = a fault, timeout or cancel occurred XZ: a 1 ns per-call timeout. ham=1 (async client): call 0 stays in flight while 12 / 40 further calls expire or are cancelled and two tasks keep the pending-map lock busy (forwards refused as duplicates of call 0, never reaching the wire); every finished call is then probed for residue. q=1 (harness-only switch, all three clients): in a stalled-writer scenario W:b;F:k;S:c the call c is started before the fault is injected - it has passed its before_write probe and waits for the writer lock held by the stalled call b when the connection fails (faults that leave the connection open with the peer still not reading, and a close); in flight or later, the property demands an error of it within the watchdog, so the model's verdict is unchanged. keep=1: after a fault that leaves the connection open, the scripted peer keeps it open and unread while the later calls are made (defect D12).",
         "timeout_s": {"quick": 900, "thorough": 3400},
     },
     "C05": {
